@@ -354,7 +354,10 @@ Qed.
 
 (* the first run (StartSearch on an empty directory, then processRequest) *)
 Lemma remaining_nil : forall l, remaining [] l = l.
-Proof. induction l as [|x r IH]; [reflexivity|]. unfold remaining in *. simpl. now rewrite IH. Qed.
+Proof.
+  induction l as [|x r IH]; [reflexivity|].
+  change (remaining [] (x :: r)) with (x :: remaining [] r). now rewrite IH.
+Qed.
 
 Lemma start_ops_shape : forall fs,
   start_ops fs = OMkdir :: atomic_write FInfo FInfoTmp (CInfo (nullb fs))
@@ -397,7 +400,7 @@ Proof.
     + apply Nat.ltb_ge in K.
       assert (J : (4 <=? k)%nat = true) by (apply Nat.leb_le; lia).
       assert (W : wfq fs (apply_ops [] (firstn k iw))).
-      { intros f c. unfold vfind. rewrite F0 by apply vk_qpr. rewrite J. simpl.
+      { intros f c. unfold vfind. rewrite F0 by apply vk_qpr. rewrite J. rewrite andb_true_l.
         destruct (N.eqb_spec (fkey (FQpr f)) (fkey FInfo)) as [E|_]; [now apply fkey_qpr_info in E|discriminate]. }
       assert (II : vfind FInfo (apply_ops [] (firstn k iw)) = Some (CInfo (nullb fs))).
       { unfold vfind. rewrite F0 by apply vk_info. now rewrite J, N.eqb_refl. }
@@ -481,10 +484,10 @@ Proof.
   intros fs chain s. split.
   - apply chain_safe.
     + intros k v. apply start_crash_safe.
-    + pose proof (start_prefix fs (length (start_ops fs))) as P. simpl in P.
+    + pose proof (start_prefix fs (length (start_ops fs))) as P. cbv zeta in P.
       rewrite firstn_all in P.
       assert ((length (start_ops fs) <? 5)%nat = false) as H.
-      { apply Nat.ltb_ge. rewrite start_ops_shape. simpl. rewrite app_length. simpl. lia. }
+      { apply Nat.ltb_ge. rewrite start_ops_shape. simpl. lia. }
       rewrite H in P. now right.
   - intro I. now apply resume_complete.
 Qed.
